@@ -21,10 +21,10 @@ import (
 func init() {
 	fw.Register(&fw.Prop{
 		ID:                  "C02",
-		DeadlockIsViolation: true,                               // the calls of this property are synchronous functions of their inputs: a call blocked for good inside the library is a violation
+		DeadlockIsViolation: true,                       // the calls of this property are synchronous functions of their inputs: a call blocked for good inside the library is a violation
 		Builds:              []string{"default", "386"}, // the 386 build runs 1/12 of the random classes on a 32-bit target
-		Scale386:    12,
-		Parallel:    4, // cases are judged on 4 goroutines per shard: the library functions are stateless, shared state inside them shows up as wrong verdicts
+		Scale386:            12,
+		Parallel:            4, // cases are judged on 4 goroutines per shard: the library functions are stateless, shared state inside them shows up as wrong verdicts
 		Rule: "(curve, seed, path): curves secp256k1, NIST P-256, ed25519 and four pluggable curves (secp256k1/P-256 wrapped so that a quarter of all candidate I_L values are declared invalid (half of them with the sentinel wrapped by %w), on NewPrivateKey and Shift, private and public side; in a second mode a sixteenth return a permanent error; in a third mode fifteen candidates in sixteen are invalid, so that runs of 8, 16, 32 and more consecutive retries occur in master-key generation and in child steps); seeds of length 0..128; paths of length 0..8 over {0, 1, 2^31-1, 2^31, 2^31+1, 2^32-1, random hardened / non-hardened}. Each node (stepwise NewMasterKey/DeriveChild, DeriveKeyFromPath of every prefix, Public(), public-side child) is compared with the SLIP-0010 model: private key, chain code, serialized public key, parent fingerprint; undefined derivations must fail, permanent errors must be returned. validity: Curve.NewPrivateKey of the three built-in curves on 0, 1, 2, n-2..n+2, 2^256-1 and random candidates (refused with ErrInvalidKey exactly outside [1, n-1]; on ed25519 every 32-byte string is a key). deep: paths of 255, 256, 257, 300, 512 and 513 elements on the three built-in curves, derived node by node and through DeriveKeyFromPath, every node and (around depth 256 and 512) its public side compared with the model. " +
 			"Non-trivial: distinct cases with path length >= 1.",
 		Assumptions: []string{"HMAC-SHA512, SHA-256 (standard library), RIPEMD-160 (x/crypto)", "the SLIP-0010 model in harness/oracle/slip10m over oracle/weier and oracle/ed (self-tested against the published SLIP-0010 vectors of all three curves incl. the P-256 retry vectors)"},
